@@ -300,17 +300,28 @@ impl EigenTrustEngine {
                 new_trust.insert(node.clone(), (1.0 - self.alpha) * trust_sum);
             }
 
-            // Add teleportation component (alpha portion)
+            // Trust held by nodes that make no positive statement (no outgoing edge) has nowhere
+            // to flow. Give it to the teleport distribution instead of dropping it: dropping it
+            // and renormalising hands it proportionally to everybody, so a closed group that only
+            // rates itself keeps a constant share (1/3 with alpha = 0.4) instead of decaying.
+            let dangling: f64 = trust_vector
+                .iter()
+                .filter(|(node, _)| !outgoing_sums.contains_key(*node))
+                .map(|(_, trust)| *trust)
+                .sum();
+            let teleport_mass = self.alpha + (1.0 - self.alpha) * dangling;
+
+            // Add teleportation component (alpha portion plus dangling mass)
             if !pre_trusted.is_empty() {
                 // Teleport to pre-trusted nodes only
                 // This ensures pre-trusted nodes always maintain baseline trust
                 for pre_node in pre_trusted.iter() {
                     let current = new_trust.entry(pre_node.clone()).or_insert(0.0);
-                    *current += self.alpha * pre_trust_value;
+                    *current += teleport_mass * pre_trust_value;
                 }
             } else {
                 // No pre-trusted nodes - uniform teleportation
-                let uniform_value = self.alpha / n as f64;
+                let uniform_value = teleport_mass / n as f64;
                 for node in &node_set {
                     let current = new_trust.entry(node.clone()).or_insert(0.0);
                     *current += uniform_value;
